@@ -191,6 +191,20 @@ theorem failure_cancels_nested (is : List Inp) (inp : Inp) (a : Nat) (e : Err)
       ∀ sl ∈ x.slots, sl.cancellable = false :=
   step_failure_cancels_nested _ inp a e (run_ts Quirks.none init is (by intro x hx; cases hx)) h
 
+/-- (viii) a cancellation is silent: the Task.Terminated callback of a cancelled task or wait goes through no Retry or
+Catch — neither the cancelled state's own nor that of a fan-out around it: whatever the state, the switches and the
+decisions an input might list for it, it produces nothing but tidy-up outputs (no progress, no retry, no catch transition) … -/
+theorem cancellation_is_silent (q : Quirks) (s : Proto) (a i : Nat) :
+    (∀ o ∈ (step q s (.echo a i)).2, o.quiet = true) ∧
+    ∀ atts b j hs hs', bubble q s.ended.isSome atts b j (.fail .taskTerminated hs) = bubble q s.ended.isSome atts b j (.fail .taskTerminated hs') :=
+  ⟨echo_quiet q s a i, fun atts b j hs hs' => bub_tt_handlers_irrelevant q _ atts b j hs hs'⟩
+
+/-- … and the same holds for the reply of a task whose attempt is terminated, whatever continuation it carries -/
+theorem late_reply_of_terminated_attempt_is_silent (q : Quirks) (s : Proto) (a i : Nat) (k : Kont) (x : Attempt)
+    (hf : find s.atts a = some x) (ht : x.terminated = true) :
+    (∀ o ∈ (step q s (.reply a i k)).2, o.quiet = true) ∧ step q s (.reply a i k) = step q s (.reply a i .goesOn) :=
+  reply_terminated_quiet q s a i k x hf ht
+
 /-! ### the switches of the open findings break exactly these statements (negations, proved on concrete witnesses) -/
 
 /-- the outer attempt 0 (two branches) fails and is retried while attempt 1, nested in its branch 1, has a task out -/
@@ -276,6 +290,10 @@ example : (run Quirks.none init [.launch 0 2 2 none 0, .event 0 0 .arm, .event 0
     .event 1 0 (.doneFail 4 (.plain 3) [.uncaught, .retried])]).2 =
     [.launched 0, .progress 0 0, .progress 0 1, .launched 1, .progress 1 0, .joinFailed 1 (.plain 3), .failAttempt 0 (.plain 3),
      .retry 0 1, .cancel 0 0] := by decide
+
+/-- attempt 0 is terminated with a task of its branch 1 still registered: its late reply, whatever it would have led to -/
+example : (find (run { nestedSurvive := true } init [.launch 0 2 2 none 0, .event 0 1 .arm, .event 0 0 (.fail (.plain 1) [.caught])]).1.atts 0).map
+    (fun x => (x.terminated, x.slots)) = some (true, [.done 0, .cancelling]) := by decide
 
 end FanProto
 
